@@ -35,6 +35,71 @@ check(
     "DESIGN.md 2.4, 5 (C09)",
 )
 
+REPLAY_NOTE = (
+    "Trusted: TLC/SANY, CommunityModules (Json, SequencesExt, Randomization), CPython, the regex library; the harness's grammar printer/exporter "
+    "(guarded: a printed grammar whose rebuilt AST differs from the intended one is skipped and counted, and the run fails as machinery error above 20%). "
+    "Bounded: families and input lengths as recorded in the evidence; quick tiers sample the larger families with TLC's seeded RandomSubset."
+)
+
+check(
+    "C01",
+    "TLC-enumerated grammar families (spec/Families.tla) with reference outcomes from PestSem.tla replayed into the library; interpreter vs exec(generate()) compared on the same Parser, optimizer off and on",
+    "Relational conformance: TLC enumerates every grammar of the bounded families (each expression kind in each nesting context, trivia configurations, modifier chains, stack operations in backtracking "
+    "contexts, tags) and every input/start position; for each case the same Parser is run interpreted and through the generated module and trees (with tags) or furthest-failure positions must be equal; "
+    "generate() twice / on an equal Parser must be byte-identical and must compile, also for ill-formed grammars.",
+    REPLAY_NOTE + " The oracle for C01 is the interpreter itself (the statement is relational); PestSem's outcome is attached for diagnosis.",
+    "DESIGN.md 3.1, 5 (C01)",
+)
+check(
+    "C02",
+    "TLC-enumerated grammar families aimed at each optimizer pass, replayed under many pass configurations against optimizer=None, interpreted and generated",
+    "Relational conformance over TLC-enumerated families targeted at squash_choice, skip, unroll, both inliners and the fused SKIP rule (plus the general families), for the default pipeline, every single pass, "
+    "ordered pairs, permutations and repetitions of the exported passes; success/failure and tree (with tags) must equal those of the unoptimized parser, for interpreted and generated optimized rules.",
+    REPLAY_NOTE,
+    "DESIGN.md 2.5, 5 (C02)",
+)
+check(
+    "C03",
+    "PestSem.tla (reference PEG semantics, TLC-checked tree invariants) evaluated by TLC on every grammar x input of the core families; outcomes replayed into interpreter and generated module",
+    "TLC evaluates the explicit TLA+ reference semantics (ordered choice, greedy repetition, bounded repetitions as unrolled sequences, predicates, silent/normal rules, recursion) on all core-operator grammars "
+    "to depth 2 (and depth 3, sampled in quick / exhaustive in thorough) x all inputs to the length bound, checks the reference's own invariants (TreeWF, SingleRoot) on each case, and the implementation must "
+    "return exactly the reference outcome (success/failure, pairs, spans).",
+    REPLAY_NOTE + " PestSem is the reading of pest's semantics pinned by the property statements; it is guarded by validating the repository's own pest-derived suite outcomes against it (SpecVsSuite).",
+    "DESIGN.md 2.2, 5 (C03)",
+)
+check(
+    "C04",
+    "PestSem.tla evaluated by TLC on trivia/modifier families (silent and non-silent WHITESPACE/COMMENT, multi-element bodies, every modifier triple) x inputs with trivia at every place; replayed into the library",
+    "TLC evaluates the reference semantics on operator terms x seven trivia configurations and on every triple of rule modifiers over a three-rule chain x spanning bodies, for all inputs over {a, space, <, >} "
+    "to the bound (leading/between/trailing/doubled trivia, unterminated comment); spans and inner pairs returned by interpreter and generated module must equal the reference.",
+    REPLAY_NOTE,
+    "DESIGN.md 2.2, 5 (C04)",
+)
+check(
+    "C05",
+    "PestSem.tla (by-value backtracking) evaluated by TLC on the stack family (each stack terminal in each backtracking context, followed by a stack-dependent probe); replayed into the library; runtime side on recorded Stack traces (C09)",
+    "TLC evaluates the reference semantics, in which a failed branch simply returns the caller's state, on r = {SETUP ~ MID ~ PROBE} for every stack terminal (alone and in two-element sequences) in 13 backtracking "
+    "contexts x 3 setups x 4 probes x all inputs to the bound; interpreter and generated module must return the reference outcome and never raise.",
+    REPLAY_NOTE + " PEEK[a..b] with indices outside the stack is outside the domain (pest fails, Python clamps; no statement pins it).",
+    "DESIGN.md 2.2, 5 (C05)",
+)
+check(
+    "C07",
+    "Outcome classification over the TLC-enumerated well-formed families in four execution modes, every call repeated",
+    "Every case of the bounded well-formed families (including empty input, empty stack and inputs ending mid-construct) is run twice in each of the four execution modes; the outcome must be Pairs or "
+    "PestParsingError (no other exception, no timeout) and the two calls must agree.",
+    REPLAY_NOTE,
+    "DESIGN.md 5 (C07)",
+)
+check(
+    "C16",
+    "RefShift invariant checked by TLC on PestSem for every enumerated case; relational replay start_pos=k vs suffix (shifted) and vs a different prefix, four modes",
+    "TLC checks on the reference semantics that the outcome at start k equals the outcome on the suffix shifted by k for every SOI-free enumerated grammar/text/k; the library is then run at start_pos=k, "
+    "on text[k:], and behind a different prefix of equal length, in four modes, and trees and failure positions must coincide after shifting.",
+    REPLAY_NOTE,
+    "DESIGN.md 5 (C16)",
+)
+
 NOT_YET = {
 }
 
